@@ -53,10 +53,15 @@ func (p Precompile) Transfer(
 		return nil, err
 	}
 
-	res, err := p.transferKeeper.Transfer(sdk.WrapSDKContext(ctx), msg)
+	// The message runs on a branch of the state that is written back only when it succeeds: a failing precompile call
+	// fails the calling EVM frame, not the transaction, so whatever a message had written before it failed would
+	// otherwise stay.
+	msgCtx, writeMsg := ctx.CacheContext()
+	res, err := p.transferKeeper.Transfer(sdk.WrapSDKContext(msgCtx), msg)
 	if err != nil {
 		return nil, err
 	}
+	writeMsg()
 
 	if err := UpdateGrantIfNeeded(ctx, contract, p.AuthzKeeper, origin, expiration, resp); err != nil {
 		return nil, err
